@@ -557,4 +557,5 @@ def worker_result(prop, ctx, info, wall):
         "samples": ctx.samples, "inconclusive": ctx.inconclusive, "truncated": info.get("truncated", False),
         "contracts": monitors.evaluation_counts(), "stdout_suppressed": env.SINK.n, "wall_s": wall,
         "emu_stats": monitors.emu_stats(), "arms": monitors.arm_report(), "progress": monitors.progress_report(),
+        "poison": env.poison_stats(),
     }
